@@ -1,6 +1,7 @@
 import TabulaModel.Util
 import TabulaModel.Model.PageSel
 import TabulaModel.Model.Builder
+import TabulaModel.Model.TextPipe
 /-
 Line protocol of C10.
 
@@ -11,9 +12,22 @@ Line protocol of C10.
   c10.doc  <n> <call>*                 -> ok <number>@<source>,… | err
   c10.bld  <f|r>,<openOk 0|1>,<n|x> <op>*   ops: d<i>:<call> t<i> g<i> u<i> k<i> c<i> m<i> x<i>
       -> <res>/<fd> … | <pages>;<HFCLJ>;<err owns opened> …
+  c10.pipe <n> <page>|<page>|… <call>*  -> ok <hex> | err
+      page = <variant>/<variant|=>  (fragments as read / after the header-footer filter; = : unchanged)
+      variant = <empty><charLevel><multiColumn>:<t>,<t>,<t>,<t>  (texts of extractPreserveLayout,
+      extractWithParagraphs, extractByColumn, assembleText; hex, - = empty, =k = same as text k)
+  c10.head <c0.c1.…|-> <call>*         -> ok <page:j,…|-> | err   (c_k headings on page k; PageIndex of each returned heading)
+  c10.anl  <c0.c1.…|-> <call>*         -> ok <Index@page,…|-> | err  (c_k elements on page k; numbering of Analyze)
+  c10.sel  <call>*                     -> <accumulated pages|->;<inverted range 0|1>
+  c10.term <op letter> <n> <call>*     -> ok <i,j,k|-> | err      (pages any terminal operation works on)
+  c10.lin  <world of bld or life> <op>* -> <res> …     (answers predicted from each receiver's chain of calls)
+  c10.end  <world of bld or life> <op>* -> <fd after the ops> <fd after closing every extractor>
+  c10.life <f|r>,<ext format>,<present 0|1>,<detected format|unknown|e>,<parseOk 0|1>,<n|x> <op>*
+      ops as above plus q w l a o z e s i b (the other terminal operations) and h (IsCharacterLevel)
+      -> <-|closed|n<k>|flag|ok|err|bad>/<fd> … | <pages>;<HFCLJ>;<err owns opened> …
 -/
 namespace Tabula.C10H
-open Tabula Tabula.PageSel Tabula.Builder
+open Tabula Tabula.PageSel Tabula.Builder Tabula.TextPipe
 
 def parseInts (s : String) : Option (List Int) :=
   if s == "" then some [] else (s.splitOn ".").mapM (·.toInt?)
@@ -34,7 +48,27 @@ def parseCall (s : String) : Option BCall :=
   | _ => none
 
 /-- the chain `Open(f).c₁.c₂…` as one extractor value -/
-def chain (cs : List BCall) : Ext := cs.foldl Ext.derive {}
+def chain (cs : List BCall) : Ext := chainFrom {} cs
+
+/-- two routes through the model to the same answer (the per-mechanism one of `PageSel` and
+the whole-call one of `Builder`): print it once, or say that they differ -/
+def both (a b : String) : String :=
+  if a == b then a else "model-paths-disagree:" ++ a ++ "|" ++ b
+
+def showExcept {α : Type} (show_ : α → String) : Except E α → String
+  | .ok a => "ok " ++ show_ a
+  | .error _ => "err"
+
+/-- a PDF of `n` pages that opens -/
+def pdfWorld (n : Nat) : World := ⟨true, some n⟩
+
+def parseTerm (s : String) : Option Term :=
+  match s with
+  | "t" => some .text | "g" => some .fragments | "u" => some .document | "k" => some .chunks
+  | "q" => some .chunksWithConfig | "w" => some .toMarkdown | "l" => some .lines
+  | "a" => some .paragraphs | "o" => some .readingOrder | "z" => some .analyze
+  | "e" => some .elements | "s" => some .headings | "i" => some .lists | "b" => some .blocks
+  | _ => none
 
 def natList (l : List Nat) : String :=
   if l.isEmpty then "-" else ",".intercalate (l.map toString)
@@ -92,8 +126,19 @@ def parseOp (s : String) : Option Op :=
   | 'g' :: rest => (String.ofList rest).toNat?.map (Op.term · .fragments)
   | 'u' :: rest => (String.ofList rest).toNat?.map (Op.term · .document)
   | 'k' :: rest => (String.ofList rest).toNat?.map (Op.term · .chunks)
+  | 'q' :: rest => (String.ofList rest).toNat?.map (Op.term · .chunksWithConfig)
+  | 'w' :: rest => (String.ofList rest).toNat?.map (Op.term · .toMarkdown)
+  | 'l' :: rest => (String.ofList rest).toNat?.map (Op.term · .lines)
+  | 'a' :: rest => (String.ofList rest).toNat?.map (Op.term · .paragraphs)
+  | 'o' :: rest => (String.ofList rest).toNat?.map (Op.term · .readingOrder)
+  | 'z' :: rest => (String.ofList rest).toNat?.map (Op.term · .analyze)
+  | 'e' :: rest => (String.ofList rest).toNat?.map (Op.term · .elements)
+  | 's' :: rest => (String.ofList rest).toNat?.map (Op.term · .headings)
+  | 'i' :: rest => (String.ofList rest).toNat?.map (Op.term · .lists)
+  | 'b' :: rest => (String.ofList rest).toNat?.map (Op.term · .blocks)
   | 'c' :: rest => (String.ofList rest).toNat?.map (Op.nonTerm · .pageCount)
   | 'm' :: rest => (String.ofList rest).toNat?.map (Op.nonTerm · .isMultiColumn)
+  | 'h' :: rest => (String.ofList rest).toNat?.map (Op.nonTerm · .isCharacterLevel)
   | 'x' :: rest => (String.ofList rest).toNat?.map Op.close
   | _ => none
 
@@ -103,8 +148,37 @@ def showRes : Res → String
   | .count n => s!"n{n}"
   | .flag => "flag"
   | .pages l => "p" ++ natList l
+  | .whole => "whole"
   | .err => "err"
   | .bad => "bad"
+
+/-- what `c10.life` compares: success or failure of a terminal operation -/
+def showResLife : Res → String
+  | .pages _ => "ok"
+  | .whole => "ok"
+  | r => showRes r
+
+def parseFmt (s : String) : Option Fmt :=
+  match s with
+  | "pdf" => some .pdf | "docx" => some .docx | "odt" => some .odt | "xlsx" => some .xlsx
+  | "pptx" => some .pptx | "html" => some .html | "epub" => some .epub | "unknown" => some .unknown
+  | _ => none
+
+def parseBit (s : String) : Option Bool :=
+  if s == "1" then some true else if s == "0" then some false else none
+
+/-- base store, world and extension format of a `c10.life` line -/
+def parseLife (s : String) : Option (Store × World × Fmt) :=
+  match s.splitOn "," with
+  | [b, x, p, d, o, n] => do
+    let fmt ← parseFmt x
+    let present ← parseBit p
+    let detected ← if d == "e" then some none else (parseFmt d).map some
+    let parseOk ← parseBit o
+    let pc ← if n == "x" then some none else n.toNat?.map some
+    let base ← if b == "f" then some (openBaseF fmt) else if b == "r" then some readerBase else none
+    pure (base, ⟨openOkOf ⟨present, detected, parseOk⟩ fmt, pc⟩, fmt)
+  | _ => none
 
 def bit (b : Bool) : String := if b then "1" else "0"
 
@@ -113,29 +187,161 @@ def showExt (e : Ext) : String :=
   let o := e.opts
   s!"{ps};{bit o.excludeHeaders}{bit o.excludeFooters}{bit o.byColumn}{bit o.preserveLayout}{bit o.joinParagraphs};{bit e.err}{bit e.owns}{bit e.opened}"
 
+/-- one fragment list of one page as the harness describes it -/
+structure PipeVariant where
+  empty : Bool
+  charLevel : Bool
+  multiCol : Bool
+  texts : List Str     -- preserveLayout, paragraphs, byColumn, plain
+  deriving Inhabited
+
+def parsePipeTexts (fields : List String) : Option (List Str) :=
+  fields.foldlM (fun (acc : List Str) f =>
+    match f.toList with
+    | '=' :: rest => do
+      let k ← (String.ofList rest).toNat?
+      let t ← acc[k]?
+      pure (acc ++ [t])
+    | _ => do
+      let t ← unhexS f
+      pure (acc ++ [t])) []
+
+def parsePipeVariant (s : String) : Option PipeVariant :=
+  match s.splitOn ":" with
+  | [flags, ts] =>
+    match flags.toList, parsePipeTexts (ts.splitOn ",") with
+    | [e, c, m], some texts =>
+      if texts.length == 4 then
+        some ⟨e == '1', c == '1', m == '1', texts⟩
+      else none
+    | _, _ => none
+  | _ => none
+
+def parsePipePage (s : String) : Option (PipeVariant × PipeVariant) :=
+  match s.splitOn "/" with
+  | [a, b] => do
+    let raw ← parsePipeVariant a
+    let fl ← if b == "=" then some raw else parsePipeVariant b
+    pure (raw, fl)
+  | _ => none
+
+def parsePipeDoc (s : String) : Option (List (PipeVariant × PipeVariant)) :=
+  if s == "0" then some [] else (s.splitOn "|").mapM parsePipePage
+
+def modeIndex : Mode → Nat
+  | .preserveLayout => 0 | .paragraphs => 1 | .byColumn => 2 | .plain => 3
+
+/-- the environment the harness described: a page's fragment list is `false` as read and
+`true` after the filter -/
+def pipeEnv (pages : List (PipeVariant × PipeVariant)) : PageEnv Bool :=
+  let get := fun (k : Nat) (v : Bool) => (pages[k]?).map fun p => if v then p.2 else p.1
+  { frags := fun k => if k < pages.length then .ok false else .error .page
+    filt := fun _ _ => true
+    isEmpty := fun k v => ((get k v).map (·.empty)).getD true
+    ocr := fun _ => none
+    charLevel := fun k v => ((get k v).map (·.charLevel)).getD false
+    multiCol := fun k v => ((get k v).map (·.multiCol)).getD false
+    render := fun m k v => ((get k v).bind fun p => p.texts[modeIndex m]?).getD [] }
+
+/-- a `c10.bld` world (three fields) or a `c10.life` world (six): base store, world, extension
+format, the base extractor, and whether answers are compared at the `ok`/`err` level -/
+def parseAnyWorld (s : String) : Option (Store × World × Fmt × Ext × Bool) :=
+  match (s.splitOn ",").length with
+  | 3 => (parseWorld s).bind fun (s0, w) => (s0.exts[0]?).map fun e0 => (s0, w, Fmt.pdf, e0, false)
+  | 6 => (parseLife s).bind fun (s0, w, fmt) => (s0.exts[0]?).map fun e0 => (s0, w, fmt, e0, true)
+  | _ => none
+
+def parseCounts (s : String) : Option (List Nat) :=
+  if s == "-" then some [] else (s.splitOn ".").mapM (·.toNat?)
+
+def showPairs (sep : String) (l : List (Nat × Nat)) : String :=
+  if l.isEmpty then "-" else ",".intercalate (l.map fun (a, b) => s!"{a}{sep}{b}")
+
 def handle (op : String) (args : List String) : String :=
   match op, args with
   | "c10.psel", n :: cs =>
-    match n.toNat? with
-    | some n => withSel cs (resolvePages · n) natList
-    | none => "bad-op"
+    match n.toNat?, cs.mapM parseCall with
+    | some n, some calls =>
+      both (withSel cs (resolvePages · n) natList)
+        (showExcept natList (pagesCall .fragments (pdfWorld n) {} calls))
+    | _, _ => "bad-op"
   | "c10.text", ts :: cs =>
-    match parseTexts ts with
-    | some texts => withSel cs (extractText (lookup texts) · texts.length) hexS
-    | none => "bad-op"
+    match parseTexts ts, cs.mapM parseCall with
+    | some texts, some calls =>
+      both (withSel cs (extractText (lookup texts) · texts.length) hexS)
+        (showExcept hexS (textCall (lookup texts) (pdfWorld texts.length) {} calls))
+    | _, _ => "bad-op"
   | "c10.frag", ps :: cs =>
-    match parseFragPages ps with
-    | some pages => withSel cs (extractFragments (lookup pages) · pages.length) showFrags
-    | none => "bad-op"
+    match parseFragPages ps, cs.mapM parseCall with
+    | some pages, some calls =>
+      both (withSel cs (extractFragments (lookup pages) · pages.length) showFrags)
+        (showExcept showFrags (fragmentsCall (lookup pages) (pdfWorld pages.length) {} calls))
+    | _, _ => "bad-op"
   | "c10.doc", n :: cs =>
-    match n.toNat? with
-    | some n => withSel cs (extractDocument · n) showDoc
+    match n.toNat?, cs.mapM parseCall with
+    | some n, some calls =>
+      both (withSel cs (extractDocument · n) showDoc)
+        (showExcept showDoc (documentCall (pdfWorld n) {} calls))
+    | _, _ => "bad-op"
+  | "c10.pipe", n :: doc :: cs =>
+    match n.toNat?, parsePipeDoc doc, cs.mapM parseCall with
+    | some n, some pages, some calls =>
+      if pages.length != n then "bad-op"
+      else
+        let env := pipeEnv pages
+        let e := chain calls
+        both (showExcept hexS (textOfChain env (pdfWorld n) calls))
+          (if e.err then "err" else showExcept hexS (textFull env e.opts n))
+    | _, _, _ => "bad-op"
+  | "c10.head", counts :: cs =>
+    match parseCounts counts with
+    | some cnt =>
+      withSel cs (extractHeadings (fun k => (lookup cnt k).map List.range) · cnt.length) (showPairs ":")
     | none => "bad-op"
+  | "c10.anl", counts :: cs =>
+    match parseCounts counts with
+    | some cnt =>
+      withSel cs (extractAnalysis (fun k => (lookup cnt k).map fun c => List.replicate c k) · cnt.length)
+        (showPairs "@")
+    | none => "bad-op"
+  | "c10.sel", cs =>
+    match cs.mapM parseCall with
+    | some calls =>
+      let viaChain := (chain calls).opts.pages
+      let ps := selOf calls
+      let shown := fun (l : List Int) => if l.isEmpty then "-" else ".".intercalate (l.map toString)
+      both (shown viaChain ++ ";" ++ bit (chain calls).err) (shown ps ++ ";" ++ bit (badRange calls))
+    | none => "bad-op"
+  | "c10.term", k :: n :: cs =>
+    match parseTerm k, n.toNat?, cs.mapM parseCall with
+    | some k, some n, some calls => showExcept natList (pagesCall k (pdfWorld n) {} calls)
+    | _, _, _ => "bad-op"
+  | "c10.lin", w :: ops =>
+    match parseAnyWorld w, ops.mapM parseOp with
+    | some (_, w, _, e0, life), some ops =>
+      " ".intercalate ((staticRun w e0 [[]] ops).map (if life then showResLife else showRes))
+    | _, _ => "bad-op"
+  | "c10.end", w :: ops =>
+    match parseAnyWorld w, ops.mapM parseOp with
+    | some (s0, w, fmt, _, _), some ops =>
+      let s := exec w s0 ops
+      let t := exec w s (closeAll (List.range s.exts.length))
+      s!"{fdHeld fmt s} {fdHeld fmt t}"
+    | _, _ => "bad-op"
   | "c10.bld", w :: ops =>
     match parseWorld w, ops.mapM parseOp with
     | some (s0, w), some ops =>
       let (s, rs) := run w s0 ops
       " ".intercalate (rs.map fun (r, fd) => s!"{showRes r}/{fd}") ++ " | " ++
+        " ".intercalate (s.exts.map showExt)
+    | _, _ => "bad-op"
+  | "c10.life", w :: ops =>
+    match parseLife w, ops.mapM parseOp with
+    | some (s0, w, fmt), some ops =>
+      let (s, rs) := run w s0 ops
+      -- `run` reports the open readers; the descriptors behind them are `fdHeld`
+      let fd := fun (n : Nat) => if fmt = .html then 0 else n
+      " ".intercalate (rs.map fun (r, n) => s!"{showResLife r}/{fd n}") ++ " | " ++
         " ".intercalate (s.exts.map showExt)
     | _, _ => "bad-op"
   | _, _ => "bad-op"
